@@ -24,10 +24,10 @@ func runC20(ctx *Ctx) {
 	r := ctx.R
 	ops := c20ops()
 	bound := 2
-	vsched.MaxPerSite, vsched.MaxPerFn = 4, 1
+	vsched.MaxPerSite, vsched.MaxPerFn = 8, 1
 	if ctx.Thorough {
 		bound = 3
-		vsched.MaxPerSite, vsched.MaxPerFn = 10, 2
+		vsched.MaxPerSite, vsched.MaxPerFn = 16, 2
 	}
 	// the repository's NASDecode prints to stdout: keep the check's own stdout for verdict lines only
 	if devnull, err := os.OpenFile(os.DevNull, os.O_WRONLY, 0); err == nil {
